@@ -44,8 +44,9 @@ def k1_verdict_corpus(ctx):
         sh = smgen.Shape(async_=rnd.random() < 0.3, dynamic=rnd.random() < 0.6, concrete=rnd.random() < 0.4,
                          depth=rnd.randint(0, 3), nleaves=rnd.randint(1, 5), nevents=rnd.randint(0, 3),
                          data=rnd.choice(['none', 'some', 'all']), hooks=rnd.randint(0, 3),
-                         payload=rnd.choice(['none', 'mixed', 'all']), super_data=rnd.random() < 0.2, cross_kind=rnd.random() < 0.3, hook_event=rnd.random() < 0.3)
-        cases.append(('wf', smgen.gen_wellformed(rnd, sh)))
+                         payload=rnd.choice(['none', 'mixed', 'all']), super_data=rnd.random() < 0.2, cross_kind=rnd.random() < 0.3, hook_event=rnd.random() < 0.3,
+                         ctx_ty=rnd.choice(['Ctx', 'Ctx', '()', 'u8', 'crate::Ctx', '(u8, u16)']))
+        cases.append(('wf', smgen.gen_wellformed(rnd, sh, idx=-1)))
     base = [d for (_, d) in cases]
     nm = 40 if ctx.tier == 'quick' else 400
     for d in rnd.sample(base, min(nm, len(base))):
